@@ -52,17 +52,19 @@ def case_strategy():
                                   'relay': st.sampled_from(['', '/came/from?x=1&y=2']),
                                   # the SP's documented clock-skew allowance, and how the IdP gets the subject identifier: handed over ready-made, or built by its
                                   # identifier store from a NameIDPolicy (long-lived IdP, few users, several formats)
-                                  'slack': st.sampled_from([None, None, 0, 180]),
+                                  'slack': st.sampled_from([None, None, 0, 180]), 'acs_index': st.sampled_from([False, False, True]),
                                   'nid_policy': st.one_of(st.none(), st.none(), st.tuples(st.sampled_from(['user-a', 'user-b']), st.integers(0, 2)).map(list))})
 
 
-def pair(opts, slack=None):
-    key = (opts, slack)
+def pair(opts, slack=None, acs_index=False):
+    key = (opts, slack, acs_index)
     if key not in _pairs:
         wrs, was, wors = bool(opts & 1), bool(opts & 2), bool(opts & 4)
         extra = {} if slack is None else {'accepted_time_diff': slack}
         sp, idp, spmd, idpmd = world.pair({'want_response_signed': wrs, 'want_assertions_signed': was, 'want_assertions_or_response_signed': wors, **extra,
-                                           'acs': [(spside.ACS_POST, world.POST), (spside.ACS_REDIRECT, world.REDIRECT), ('https://sp.verif.example/acs/soap', world.SOAP)]}, None)
+                                           # endpoints in the documented (url, binding) or (url, binding, index) form
+                                           'acs': [(spside.ACS_POST, world.POST, 0), (spside.ACS_REDIRECT, world.REDIRECT, 1), ('https://sp.verif.example/acs/soap', world.SOAP, 2)] if acs_index else
+                                                  [(spside.ACS_POST, world.POST), (spside.ACS_REDIRECT, world.REDIRECT), ('https://sp.verif.example/acs/soap', world.SOAP)]}, None)
         clock.install()
         _pairs[key] = (sp, idp)
     return _pairs[key]
@@ -127,7 +129,7 @@ def run(case):
     if wors and not (sr or sa):
         sr = True
     binding = case['binding']
-    sp, idp = pair(case['opts'], case.get('slack'))
+    sp, idp = pair(case['opts'], case.get('slack'), bool(case.get('acs_index')))
     clock.set_now(NOW)
     identity = dict((k, list(v)) for k, v in case['identity'].items())
     n = case['name_id']
